@@ -122,6 +122,8 @@ type world struct {
 	raCerts map[string]bool
 	// dirNow: key directory states changed between runs (name -> state)
 	dirNow map[string]string
+	// withoutKeyOf: the forwarded agent of this world does not hold that user's key
+	withoutKeyOf string
 }
 
 type sharedRA struct {
@@ -156,8 +158,11 @@ func (w *world) user(name string) *GUser {
 	return nil
 }
 
-// registered returns the public keys registered in the directory for a name
-// (either file spelling; precedence between the two is not part of the property).
+// registered returns the public keys registered in the directory for a name. When both file spellings exist with
+// different keys, which of them is "the" registered key is left open (both are accepted) - except after the history
+// "the key was registered as <name> only, then another key was registered as <name>.pub" (state alt_pub_added): the
+// anchored lookup order puts <name>.pub first, so from then on the key in <name>.pub is the registered one; a lookup
+// that keeps answering with what it found earlier is stale.
 func (w *world) registered(name string) [][]byte {
 	u := w.user(name)
 	if u == nil {
@@ -169,7 +174,7 @@ func (w *world) registered(name string) [][]byte {
 		return [][]byte{own}
 	case "both_diff":
 		return [][]byte{own, keys.Pub(u.KeyKind, altKeyLabel(name)).Marshal()}
-	case "rotated":
+	case "rotated", "alt_pub_added":
 		return [][]byte{keys.Pub(u.KeyKind, altKeyLabel(name)).Marshal()}
 	}
 	return nil
@@ -195,11 +200,20 @@ func (w *world) changeDir(name, how string) {
 	}
 	kd := filepath.Join(w.dir, "keys")
 	pub, bare := filepath.Join(kd, name+".pub"), filepath.Join(kd, name)
-	os.RemoveAll(pub)
-	os.RemoveAll(bare)
 	if w.dirNow == nil {
 		w.dirNow = map[string]string{}
 	}
+	if how == "add_pub_alt" {
+		// the operator registers another key as <name>.pub and leaves the old entry <name> where it is
+		if w.dirState(name) != "bare" {
+			return
+		}
+		os.WriteFile(pub, authorizedLine(u.KeyKind, altKeyLabel(name), "registered later"), 0o644)
+		w.dirNow[name] = "alt_pub_added"
+		return
+	}
+	os.RemoveAll(pub)
+	os.RemoveAll(bare)
 	switch how {
 	case "rotate":
 		os.WriteFile(pub, authorizedLine(u.KeyKind, altKeyLabel(name), "rotated"), 0o644)
@@ -301,6 +315,9 @@ func (w *world) setupDir() error {
 func (w *world) setupAgent() {
 	w.ref = refagent.New()
 	for _, name := range w.plan.AgentKeys {
+		if name == w.withoutKeyOf {
+			continue
+		}
 		if u := w.user(name); u != nil {
 			w.ref.DirectAdd(agent.AddedKey{PrivateKey: keys.AgentPriv(u.KeyKind, userKeyLabel(name)), Comment: "login key of " + name})
 		}
